@@ -373,6 +373,26 @@ def batt_cases(ctx, n_sys, faults):
     rng.shuffle(behs)
     cases = []
     n = 0
+    # a fixed scenario first: the system is analysed, then a load is moved from the other source to the battery (the freed
+    # node index is re-used), then batt_life must step the battery with the current of the EDITED system
+    try:
+        import sysloss.components as C
+        from sysloss.system import System
+        with warnings.catch_warnings():
+            warnings.simplefilter("ignore")
+            s0 = System("moved", C.Source("bat", vo=3.7, rs=0.1))
+            s0.add_source(C.Source("aux", vo=5.0))
+            s0.add_comp("bat", comp=C.LinReg("ldo", vo=3.0, vdrop=0.2, ig=1e-5))
+            s0.add_comp("ldo", comp=C.ILoad("mcu", ii=0.02))
+            s0.add_comp("aux", comp=C.PLoad("radio", pwr=0.4))
+            s0.solve()
+            s0.del_comp("radio")
+            s0.add_comp("ldo", comp=C.PLoad("radio", pwr=0.4))
+        for f in ([None] + ([("deplete", 2)] if faults else [])):
+            p, d = drv_batt.numeric_model("sag", 0.05, 3.9, 0.15, rng)
+            cases.append(drv_batt.run_batt(copy_system(s0), "bat", 3.0, p, d, len(cases), fail_at=f))
+    except Exception:
+        pass
     for st in behs:
         if n >= n_sys:
             break
@@ -389,7 +409,7 @@ def batt_cases(ctx, n_sys, faults):
             continue
         if not (ib > 1e-7):
             continue
-        if rng.random() < 0.3:
+        if rng.random() < 0.5:
             # the system was analysed (above) and is then edited: batt_life must see the edited system
             try:
                 drv_solve.move_leaf(s, rng)
